@@ -189,7 +189,15 @@ def _history(rng):
             ops.append(["row", probe])
         else:
             ops.append(["setitem", probe])
-    return {"op": "hist", "names": names, "ops": ops}
+    case = {"op": "hist", "names": names, "ops": ops}
+    if rng.random() < 0.2:
+        # the same history on a table WITHOUT rows (a filter that matched nothing): shape, repr and row views take
+        # other paths there, so a map refresh that happens "by the way" on tables with rows does not happen
+        case["empty"] = True
+        case["ops"] = [o for o in ops if o[0] in ("view", "rename", "renames", "getattr", "repr", "dir")] or [["repr"]]
+        if not any(o[0] == "getattr" for o in case["ops"]):
+            case["ops"].append(["getattr", ["acc", 0]])
+    return case
 
 
 # ------------------------------------------------------------------ implementation side
@@ -274,14 +282,23 @@ def _make(names, fresh):
     return Table([Vector([fresh()], name=nm) for nm in names])
 
 
+def _headers_of(t, n, keys):
+    """display.py's own list of dot names for ALL columns (a private helper: if its signature has changed,
+    fall back to the accessor map's keys - the public dot row of repr() is compared separately)"""
+    try:
+        from serif.display import _compute_headers
+        return list(_compute_headers(t.cols(), list(range(n)))[1])
+    except Exception:                                        # noqa: BLE001
+        return list(keys)
+
+
 def _fresh_accessors(names):
     """What a brand-new table with these stored names advertises, per column."""
-    from serif.display import _compute_headers
     t = _make(names, _Fresh())
     keys = list(t._build_column_map().keys())
     if len(keys) == len(names):
         return keys
-    return list(_compute_headers(t.cols(), list(range(len(names))))[1])
+    return _headers_of(t, len(names), keys)
 
 
 def _same_names(a, b):
@@ -289,7 +306,6 @@ def _same_names(a, b):
 
 
 def _obs_table(case):
-    from serif.display import _compute_headers
     fresh = _Fresh()
     names = [V.dec(x) for x in case["names"]]
     t = _make(names, fresh)
@@ -300,7 +316,7 @@ def _obs_table(case):
     d = dir(t)
     out["dir"] = sorted(x for x in d if x not in base)
     out["dir_missing"] = sorted(k for k in m if k not in d)
-    out["hdr"] = list(_compute_headers(t.cols(), list(range(n)))[1])
+    out["hdr"] = _headers_of(t, n, m.keys())
     rep = repr(t)
     out["dot"] = _parse_dot(rep)
     attrs = list(m.keys()) + out["hdr"] + [x[1:] for x in (out["dot"] or []) if x != "..."] + case["probes"]
@@ -339,6 +355,8 @@ def _obs_hist(case):
     fresh = _Fresh()
     names = [V.dec(x) for x in case["names"]]
     t = _make(names, fresh)
+    if case.get("empty"):
+        t = t[0:0]
     steps = []
     for op in case["ops"]:
         kind = op[0]
